@@ -116,6 +116,59 @@ def overwritten(t):
     return out
 
 
+def spine_stop(t):
+    """the term at which the spine of an absorbed value (see `overwritten`) ends: the datum itself when every step down from the
+    absorbed bytes is an encoding (CONVERSIONS), otherwise the first step that is something else"""
+    seen = 0
+    while t is not None and seen < 40:
+        seen += 1
+        if t.tag == 'mut':
+            t = t[1]
+        elif t.tag == 'via':
+            t = t[2]
+        elif t.tag in ('elem', 'elemat'):
+            t = t[1]
+        elif t.tag in ('cast',):
+            t = t[2]
+        elif t.tag == 'call' and t[1].split('::')[-1] in CONVERSIONS and len(t[2]) == 1:
+            t = t[2][0]
+        else:
+            break
+    return t
+
+
+MEASURES = {'len', 'count'}          # unary functions of a datum that are absorbed for what they are (a count), not as an encoding of it
+
+
+def recoded(t):
+    """names of the unary functions, other than encodings, that lie between a stored datum (a field of a parameter) and the bytes
+    absorbed for it: `append(label, Scalar::from_bytes_mod_order(point.bytes).as_bytes())` absorbs a function of the point that need
+    not be injective -- two different data may then be absorbed as the same bytes.  Values the caller computes (a binop, a call
+    with several arguments) are not stored data and give no verdict here."""
+    seen = 0
+    unknown = []
+    while t is not None and seen < 40:
+        seen += 1
+        if t.tag == 'mut':
+            t = t[1]
+        elif t.tag == 'via':
+            t = t[2]
+        elif t.tag in ('elem', 'elemat'):
+            t = t[1]
+        elif t.tag == 'cast':
+            t = t[2]
+        elif t.tag == 'call' and len(t[2]) == 1:
+            nm = t[1].split('::')[-1]
+            if nm in MEASURES:
+                return []
+            if nm not in CONVERSIONS:
+                unknown.append(nm)
+            t = t[2][0]
+        else:
+            break
+    return unknown if t is not None and t.tag == 'field' else []
+
+
 def validated(ctx, e):
     """is the append guarded by a negative identity test of the appended point?"""
     # the test may sit in any frame of the call chain that leads to the absorption (validate_and_append_point may delegate
